@@ -1178,7 +1178,7 @@ func (in *Interp) castFieldAddr(fr *frame, c CastPtr, field int, pt types.Type) 
 				ft = st.Field(field).Type()
 			}
 			return CastPtr{p: rvField{cell: cell, field: field}, t: ft}
-		case Iface:
+		case Iface, FabIface:
 			// hack.Iface / hack.Eface overlay on an interface cell
 			return CastPtr{p: ifaceWord{cell: cell, word: field}, t: st.Field(field).Type()}
 		case *FuncV:
@@ -1197,6 +1197,69 @@ func (in *Interp) castFieldAddr(fr *frame, c CastPtr, field int, pt types.Type) 
 		return CastPtr{p: ImgPtr{addr: Add(ip.addr, BV(64, uint64(off)))}, t: st.Field(field).Type()}
 	}
 	panic(pathAbort{fmt.Sprintf("unsupported: field %d through cast of %T at %s", field, c.p, fr.site())})
+}
+
+// FabIface is an interface value whose two words were written through a hack.Iface
+// overlay (goom fabricates an itab): tab points at a hack.Itab struct cell.
+type FabIface struct {
+	tab  Value
+	data Value
+}
+
+// ITabTok stands for the (opaque) itab / type word of an ordinary interface value.
+type ITabTok struct {
+	t types.Type
+}
+
+func (in *Interp) itabToken(t types.Type) Value {
+	if t == nil {
+		return (*Value)(nil)
+	}
+	key := "itab:" + types.TypeString(t, nil)
+	if c, ok := in.itabToks[key]; ok {
+		return c
+	}
+	c := new(Value)
+	*c = &ITabTok{t: t}
+	if in.itabToks == nil {
+		in.itabToks = map[string]*Value{}
+	}
+	in.itabToks[key] = c
+	return c
+}
+
+// ifaceWords: the two machine words of an interface value.
+func (in *Interp) ifaceWords(fr *frame, v Value) (Value, Value) {
+	switch x := v.(type) {
+	case FabIface:
+		return x.tab, x.data
+	case Iface:
+		if x.t == nil {
+			return (*Value)(nil), (*Value)(nil)
+		}
+		return in.itabToken(x.t), in.ifaceDataPtr(fr, x)
+	}
+	panic(pathAbort{fmt.Sprintf("unsupported: interface words of %T at %s", v, fr.site())})
+}
+
+// ifaceFromWords rebuilds an interface value from two words.
+func (in *Interp) ifaceFromWords(fr *frame, tab, data Value) Value {
+	if isNilPtr(tab) {
+		return Iface{}
+	}
+	if tp, ok := tab.(*Value); ok {
+		if tok, ok := (*tp).(*ITabTok); ok {
+			switch kindOf(tok.t) {
+			case kPtr, kFunc, kMap, kChan, kUnsafePointer:
+				return Iface{t: tok.t, v: data}
+			}
+			if dp, ok := data.(*Value); ok && dp != nil {
+				return Iface{t: tok.t, v: copyVal(*dp)}
+			}
+			return Iface{t: tok.t, v: zero(tok.t)}
+		}
+	}
+	return FabIface{tab: tab, data: data}
 }
 
 type ifaceWord struct {
@@ -1223,11 +1286,11 @@ func (in *Interp) reflectCastLoad(fr *frame, c CastPtr, t types.Type) Value {
 	case funcCodeWord:
 		return in.funcCode(p.f)
 	case ifaceWord:
-		ifc := (*p.cell).(Iface)
+		tab, data := in.ifaceWords(fr, *p.cell)
 		if p.word == 0 {
-			return in.typeToken(ifc.t)
+			return tab
 		}
-		return in.ifaceDataPtr(fr, ifc)
+		return data
 	case *FuncV:
 		// *(*uintptr)(ptrToFuncval): the code pointer
 		if w, _, ok := intWidth(c.t); ok && w == 64 {
@@ -1266,6 +1329,15 @@ func (in *Interp) reflectCastStore(fr *frame, c CastPtr, v Value, t types.Type) 
 			}
 		}
 		panic(pathAbort{fmt.Sprintf("unsupported: store to reflect.Value word %d at %s", p.field, fr.site())})
+	case ifaceWord:
+		tab, data := in.ifaceWords(fr, *p.cell)
+		if p.word == 0 {
+			tab = v
+		} else {
+			data = v
+		}
+		in.setCell(p.cell, in.ifaceFromWords(fr, tab, data))
+		return true
 	case funcCodeWord:
 		// overwrite code pointer of a func value
 		nf := p.f
